@@ -394,8 +394,14 @@ def run_shard(shard):
     try:
         if shard.get("part") == 0:
             _validator_note(acc, rnd)
-        for _ in range(shard["n"]):
-            case = gen_case(rnd)
+        prelude = []
+        if shard.get("part") == 0:
+            # small fixed names first, so that the first witness of a signature is a minimal one
+            prelude = [{"name": n, "force": f, "script": sc, "rseed": 1, "forced": []}
+                       for n in ["a b", "1", "12", "a-b", "x.y", "ab", "a", "", "abc", "My App", "1abc", "-", "a" * 64]
+                       for f in (False, True) for sc in ("free", {"taken": 1})]
+        for i in range(len(prelude) + shard["n"]):
+            case = prelude[i] if i < len(prelude) else gen_case(rnd)
             acc.case()
             rid = judge(case, acc, k8s, loop)
             if rid is None or rid != case["name"]:
